@@ -1370,6 +1370,10 @@ func TestVerifC06(t *testing.T) {
 	// ---- configurations put in force by reloads, every subset of loading steps failing
 	w.reloadPart(out, r, freePort)
 
+	// ---- the address-literal functions of the standard library next to their Lean models; admission of literals
+	// decided from the text of configuration and covert string alone (its own random stream)
+	w.netAddrPart(out, vlib.NewRand("C06na"))
+
 	// ---- random policies × random / mutated covert strings
 	n := vlib.Budget(6000, 600000)
 	var pp *c06Parsed
@@ -1508,6 +1512,10 @@ func (w *c06World) replay(t *testing.T, out *vlib.Out, path string) {
 			pol := c06ParsePolicy(f[1])
 			w.runSched(out, pol, coverts, sch)
 			fmt.Printf("REPLAY workers %q schedule %s policy %s\n", coverts, f[3], pol.String())
+		case strings.HasPrefix(line, "c06na|"):
+			if !w.netAddrReplay(out, line) {
+				t.Fatalf("bad replay line %q", line)
+			}
 		case strings.HasPrefix(line, "c06db|"):
 			f := strings.Split(line, "|")
 			if len(f) != 7 {
